@@ -35,6 +35,9 @@ def main():
     sh(['git', '-C', repo, 'checkout', '-q', '--detach', head])
     sh(['git', '-C', repo, 'checkout', '--', '.'])
     sh(['git', '-C', repo, 'clean', '-fdq'])
+    # generated, git-ignored file that one test imports
+    if os.path.exists('/repo/src/icalendar/_version.py'):
+        shutil.copy('/repo/src/icalendar/_version.py', os.path.join(repo, 'src', 'icalendar', '_version.py'))
     sh(['rsync', '-a', '--delete', '--exclude', '.git', '--exclude', 'replays', '--exclude', '__pycache__',
         VERIF + '/', verif + '/'])
     res = {'patch': opt['patch'], 'props': {}, 'head': head}
